@@ -121,6 +121,27 @@ def ob_characterize(ctx):
         B = kit_class(st, P["kit"], P["cls"])
         role = role_of(st, B)
         enzyme = str(getattr(B.cutter, "real", B.cutter))
+    elif P.get("fresh"):
+        # classes nobody has used yet (declared in this very call): a concrete leaf type asked directly and first, or a
+        # family that gains a member after its base has already typed a record
+        role, enzyme = P["role"], P["enzyme"]
+        base = st.modules.Entry if role == "module" else st.vectors.EntryVector
+        if P["fresh"] == "leaf":
+            B = type(str("FreshLeaf"), (st.parts.AbstractPart, base), {"cutter": st.enzyme(enzyme), "signature": ("AATG", "NNNN")})
+            keep = [B]
+        else:
+            B = type(str("FreshBase"), (st.parts.AbstractPart, base), {"cutter": st.enzyme(enzyme)})
+            keep = [B, type(str("Early"), (B,), {"signature": ("ATGC", "ATTC")})]
+            from .rblock import concrete_instance
+
+            G0 = generic_class(st, role, enzyme)
+            other = st.record.CircularRecord(st.Seq(concrete_instance(G0.structure(), n)), id="other")
+            try:
+                B.characterize(other)
+            except RuntimeError:
+                pass
+            keep.append(type(str("Late"), (B,), {"signature": ("AATG", "NNNN")}))
+        ctx.keep = keep
     else:
         role, enzyme = P["role"], P["enzyme"]
         B = concrete_family(st, role, enzyme) if P.get("concrete_base") else user_family(st, role, enzyme)
@@ -229,6 +250,13 @@ def obligations(tier, seed):
         obs.append(Ob("characterize concrete class with narrower subtypes %s n=%d" % (role, F + 1), ob_characterize,
                       dict(src="user", role=role, enzyme="BsaI", n=F + 1, concrete_base=True), samples=4, cost=4 * (F + 1) ** 3,
                       expect_witness=("none-accepts", "some-accepts")))
+    for fresh in ("leaf", "late"):
+        role = "module"
+        F = fixed_letters(generic_class(st, role, "BsaI").structure())
+        obs.append(Ob("characterize %s n=%d" % ("a concrete leaf type nobody used before" if fresh == "leaf" else
+                                              "a family that gained a member after its first use", F + 1), ob_characterize,
+                      dict(src="user", role=role, enzyme="BsaI", n=F + 1, fresh=fresh), samples=4, cost=3 * (F + 1) ** 3,
+                      expect_witness=("none-accepts", "some-accepts"), group="history"))
     bases = [("cidar", "CIDARPart")] if tier == "quick" else [("cidar", "CIDARPart"), ("ecoflex", "EcoFlexPart"),
                                                                ("ytk", "YTKPart"), ("moclo", "MoCloPart"), ("plant", "PlantPart")]
     for kit, name in bases:
